@@ -193,3 +193,33 @@ pub fn fnv(bytes: &[u8]) -> u64 {
     }
     h
 }
+
+/// A `tracing` subscriber that enables everything and records nothing: with it installed (scoped to
+/// the calling thread) the library's `tracing` instrumentation actually runs.
+pub struct TraceAll;
+impl tracing::Subscriber for TraceAll {
+    fn enabled(&self, _: &tracing::Metadata<'_>) -> bool {
+        true
+    }
+    fn new_span(&self, _: &tracing::span::Attributes<'_>) -> tracing::span::Id {
+        tracing::span::Id::from_u64(1)
+    }
+    fn record(&self, _: &tracing::span::Id, _: &tracing::span::Record<'_>) {}
+    fn record_follows_from(&self, _: &tracing::span::Id, _: &tracing::span::Id) {}
+    fn event(&self, e: &tracing::Event<'_>) {
+        // format the fields like a real subscriber would (the values are evaluated either way)
+        struct V;
+        impl tracing::field::Visit for V {
+            fn record_debug(&mut self, _: &tracing::field::Field, v: &dyn std::fmt::Debug) {
+                let _ = format!("{v:?}");
+            }
+        }
+        e.record(&mut V);
+    }
+    fn enter(&self, _: &tracing::span::Id) {}
+    fn exit(&self, _: &tracing::span::Id) {}
+}
+
+pub fn with_tracing<T>(f: impl FnOnce() -> T) -> T {
+    tracing::subscriber::with_default(TraceAll, f)
+}
